@@ -69,17 +69,17 @@ func ZZCalls() int        { return zzCalls }
 
 func zzNodeHeader(h *eth.Header, num uint64) {
 	h.Number = eth.Uint64(num)
-	h.Hash = zzNode.BlockHash
-	h.Parent = zzNode.ParentHash
+	h.Hash = zzCp(zzNode.BlockHash)
+	h.Parent = zzCp(zzNode.ParentHash)
 	h.Time = eth.Uint64(zzNode.BlockTime)
 }
 
 func zzNodeTx(t *eth.Tx) {
 	n := zzNode
 	t.Idx = 0
-	t.PrecompHash = n.TxHash
+	t.PrecompHash = zzCp(n.TxHash)
 	t.Nonce = eth.Uint64(n.TxNonce)
-	t.From, t.To, t.Data = n.TxFrom, n.TxTo, n.TxInput
+	t.From, t.To, t.Data = zzCp(n.TxFrom), zzCp(n.TxTo), zzCp(n.TxInput)
 	t.Type = eth.Byte(n.TxType)
 	t.GasLimit = eth.Uint64(n.TxGas)
 	t.Value = uint256.Int{n.TxValue, 0, 0, 0}
@@ -87,3 +87,6 @@ func zzNodeTx(t *eth.Tx) {
 	t.MaxPriorityFeePerGas = uint256.Int{n.TxMaxPrio, 0, 0, 0}
 	t.MaxFeePerGas = uint256.Int{n.TxMaxFee, 0, 0, 0}
 }
+
+// zzCp: every answer carries its own bytes, as a JSON decoder would allocate them.
+func zzCp(b []byte) []byte { return append([]byte(nil), b...) }
